@@ -391,7 +391,7 @@ fn mk_server(text: &str) -> (Server, Url) {
     let (t, m) = LineMap::normalize(doc_string(text));
     let mut fs = FileSet::default();
     fs.insert(FileId(0), VfsPath(7));
-    let vfs = Vfs { files: Slab { entries: vec![Some((Arc::<str>::from(t), Arc::new(m)))] }, local_file_set: fs, change: Change::default() };
+    let vfs = Vfs { files: Slab { entries: vec![(Arc::<str>::from(t), Arc::new(m))], vacant: vec![false] }, local_file_set: fs, change: Change::default() };
     let mut opened = FxHashMap::default();
     opened.insert(Url(7), FileData { diagnostics_task: None });
     (Server { vfs: Arc::new(RwLock::new(vfs)), opened_files: opened, applied: 0, diagnostics_for: Vec::new() }, Url(7))
@@ -405,6 +405,16 @@ fn ch(range: Option<(u32, u32, u32, u32)>, text: &str) -> TextDocumentContentCha
 }
 fn notify(uri: &Url, changes: Vec<TextDocumentContentChangeEvent>) -> DidChangeTextDocumentParams {
     DidChangeTextDocumentParams { text_document: VersionedTextDocumentIdentifier { uri: uri.clone(), version: 2 }, content_changes: changes }
+}
+/// LineMap::normalize restricted to what these harnesses feed it: a single line of ASCII without CR (asserted), for which the
+/// line map is {line_starts: [0], no char diffs, len}.  The real normalize is checked on its own (K1); running it three times
+/// per notification symbolically costs CBMC more than 15 minutes per harness (measured).
+fn stub_normalize_ascii_line(text: String) -> (String, LineMap) {
+    let b = text.as_bytes();
+    let mut i = 0;
+    while i < b.len() { assert!(b[i] < 0x80 && b[i] != b'\n' && b[i] != b'\r', "harness misuse: normalize stub needs one line of ASCII"); i += 1; }
+    let len = b.len() as u32;
+    (text, LineMap { line_starts: vec![0], char_diffs: FxHashMap::default(), len })
 }
 /// the document is known to the server and has this text
 fn doc_is(srv: &Server, uri: &Url, text: &str) -> bool {
@@ -445,6 +455,7 @@ def h_session(name, doc, changes, expect):
 #[kani::proof]
 #[kani::stub(alloc::fmt::format, stub_fmt)]
 #[kani::stub(alloc::string::String::with_capacity, stub_with_capacity)]
+#[kani::stub(LineMap::normalize, stub_normalize_ascii_line)]
 #[kani::unwind(12)]
 fn c15_session_%(name)s() {
     let (mut srv, uri) = mk_server(%(doc)s);
